@@ -30,6 +30,8 @@ Definition macro_header (s : st) : st :=
       let '(id, s4) := opt_text "id" o s3 in
       let s5 := s4 <| cidx := id |> in
       let s6 := if str_eqb m (R "Ch") || str_eqb m (R "Pt") then s5 <| cid := id |> else s5 in
+      let s6 := if (match fmt s6 with FX => true | _ => false end) && X.custom_ids s6 && negb (X.id_safe (cidx s6))
+                then err "id contains a markup character and cannot be used as custom id" s6 else s6 in
       let ref := header_reference s6 in
       let num := header_num (toc s6) m nonum in
       let s7 := match id with [] => s6 | _ => store_id id (mkId ref num 5) s6 end in
